@@ -204,6 +204,13 @@ Definition cached_package_touches (cacheDir datahash : str) (dat_exists : bool) 
 Definition cached_rebuilds (datahash : str) (dat_exists : bool) : bool :=
   dat_exists && (if cached_hex_before_data then hex_ok datahash else true).
 
+(* verifyExpanded (fix 6d335fb), the datahash part: every datahash value of the
+   fetched control section is empty or equals the hex sha256 of the data section
+   ([got]); only then are the sections moved into the cache.  cachedPackage's
+   a.datahash() wants exactly one value. *)
+Definition verify_datahash_accepts (values : list str) (got : str) : bool :=
+  forallb (fun v => str_eqb v [] || str_eqb v got) values.
+
 (* ---- the in-memory trees (memfs.go and tarfs/fs.go) --------------------------- *)
 
 Inductive node :=
